@@ -34,6 +34,9 @@ type Disk struct {
 	Touched        [][2]int
 	Fired          bool
 
+	// RangeOnce: the FailRange fault fires only the first time the range is touched
+	RangeOnce bool
+
 	// transient fault: ReadAt call number onceAt (1-based) fails with EIO and
 	// delivers nothing; the disk is healthy before and after
 	onceAt int
@@ -111,6 +114,9 @@ func (d *Disk) ReadAt(p []byte, off int64) (int, error) {
 			copy(p, d.Data[int(off):int(off)+n])
 		}
 		d.Fired = true
+		if d.RangeOnce {
+			d.failLo = -1 // the bad range heals after it was hit once (transient medium error)
+		}
 		r.Fault("disk.eio")
 		r.Event("readat", "eio", fmt.Sprintf("%s off=%d len=%d", d.name, off, len(p)))
 		return n, simio.ErrIO
